@@ -277,7 +277,10 @@ def repeat_text(i, n, j):
 COLLIDE = [(False, "bool"), (True, "bool"), (0, "int"), (1, "int"), (0.0, "float"), (1.0, "float")]
 
 
-CTABLE = [(e1, e2, a, b) for e1 in range(3) for e2 in range(3) for a in range(6) for b in range(6)]
+# pairs of values that are == and hash-equal but differ in type, both orders
+CPAIRS = [(a, b) for a in range(6) for b in range(6) if a != b and COLLIDE[a][0] == COLLIDE[b][0]]
+CTABLE = [(e1, e2, a, b) for e1 in range(6) for e2 in range(6) for (a, b) in CPAIRS]
+CKINDS = ("function", "class", "argparse", "rest", "numpydoc", "google")
 
 
 def collide_idx(c):
@@ -286,29 +289,35 @@ def collide_idx(c):
 
 
 def collide(e1, e2, a, b):
-    """two successive emissions in one process with defaults that compare equal but differ in type (False/0/0.0, True/1/1.0):
-    the second artefact carries ITS OWN default, value and type (absolute oracle, so the order of evaluation cannot hide it)"""
+    """two successive conversions in one process with defaults that compare equal but differ in type (False/0/0.0, True/1/1.0): the
+    second conversion - emission AND parsing back - carries ITS OWN default, value and type (absolute oracle, so the order of evaluation
+    cannot hide it; a cache keyed by == anywhere on the way is exactly what this finds)"""
     with untraced():
+        from collections import OrderedDict as OD
 
         def ir(v, t):
             return {"name": None, "type": "static", "doc": "Summary line", "returns": None,
-                    "params": __import__("collections").OrderedDict([("x", {"typ": t, "doc": "the x", "default": v})])}
+                    "params": OD([("x", {"typ": t, "doc": "the x", "default": v})])}
 
-        def emit_it(which, v, t):
-            if which == 0:
-                n = emit.function(ir(v, t), function_name="f", function_type="static", emit_as_kwonlyargs=False)
-                return n.args.defaults[0].value
-            if which == 1:
-                n = emit.class_(ir(v, t), class_name="K")
-                return [x for x in n.body if isinstance(x, ast.AnnAssign)][0].value.value
-            n = emit.argparse_function(ir(v, t))
-            call = [x for x in ast.walk(n) if isinstance(x, ast.Call) and getattr(x.func, "attr", "") == "add_argument"][0]
-            return [k.value.value for k in call.keywords if k.arg == "default"][0]
+        def convert(which, v, t):
+            kind = CKINDS[which]
+            art = emit_kind(ir(v, t), kind, {"kwonly": False})
+            if kind == "function":
+                node_val = art.args.defaults[0].value
+            elif kind == "class":
+                node_val = [x for x in art.body if isinstance(x, ast.AnnAssign)][0].value.value
+            elif kind == "argparse":
+                call = [x for x in ast.walk(art) if isinstance(x, ast.Call) and getattr(x.func, "attr", "") == "add_argument"][0]
+                node_val = [k.value.value for k in call.keywords if k.arg == "default"][0]
+            else:
+                node_val = v
+            back = parse_kind(art, kind)["params"]["x"].get("default")
+            return node_val, back
 
-        emit_it(e1, *COLLIDE[a])
-        got = emit_it(e2, *COLLIDE[b])
+        convert(e1, *COLLIDE[a])
+        emitted, parsed = convert(e2, *COLLIDE[b])
         want = COLLIDE[b][0]
-        return type(got) is type(want) and got == want
+        return type(emitted) is type(want) and emitted == want and type(parsed) is type(want) and parsed == want
 
 
 def scan():
@@ -362,9 +371,10 @@ def obligations(tier, seed):
                   bounds="pool of %d user-written docstrings (Google with sections after Args, numpydoc with Notes, a {..} choice literal, ReST); "
                   "parsed 2..3 times with any other text in between" % len(USER_DOCS), timeout=150, funcs=FUNCS))
     obs.append(Ob(name="equal_but_different_defaults", params=[("c", "int")], pre=["0 <= c < %d" % len(CTABLE)],
-                  body="H.collide_idx(c)", witness=(CTABLE.index((0, 0, 0, 4)),), kind="F",
-                  bounds="two successive emissions (function / class / argparse, 9 pairs) with defaults drawn from %r (36 pairs): values that are "
-                  "== and hash-equal but differ in type or sign" % ([c[0] for c in COLLIDE],), timeout=200, funcs=FUNCS))
+                  body="H.collide_idx(c)", witness=(CTABLE.index((0, 3, 0, 4)),), kind="F",
+                  bounds="two successive conversions (emit + parse back; function / class / argparse / rest / numpydoc / google, 36 ordered kind pairs) "
+                  "whose defaults are == and hash-equal but differ in type (%d ordered value pairs from %r)" % (len(CPAIRS), [c[0] for c in COLLIDE]),
+                  timeout=280, funcs=FUNCS))
     obs.append(ZOb(name="set_iteration_scan", run=scan, bounds="AST scan of /repo/doctrans/*.py for iteration over set-valued expressions"))
     obs.append(ZOb(name="hashseed_sweep", run=lambda: seed_sweep(8 if tier == "quick" else 32),
                    replay=lambda cex: (seed_sweep(8)["status"] == "violated", "re-ran the sweep"),
